@@ -102,7 +102,20 @@ struct Pair {
         },
         [](const std::array<T, 17>& c, int i) { return c[i]; });
     for (int n : {0, 1, 5, 64, 1000, 1024, 4096})  // incl. exact multiples of plausible block sizes
-      if (!light || n <= 5) container<std::vector<T>>("vector<" + std::to_string(n) + ">", n, [](const std::vector<T>& v) { return v; }, [](const std::vector<T>& c, int i) { return c[i]; });
+      if (!light || n <= 5) {
+        container<std::vector<T>>("vector<" + std::to_string(n) + ">", n, [](const std::vector<T>& v) { return v; }, [](const std::vector<T>& c, int i) { return c[i]; });
+        // the same with spare capacity behind the last element (reserve): only the size() elements are the container's values
+        if (n <= 64)
+          container<std::vector<T>>(
+              "vector<" + std::to_string(n) + "> with spare capacity", n,
+              [](const std::vector<T>& v) {
+                std::vector<T> w;
+                w.reserve(2 * v.size() + 8);
+                for (T x : v) w.push_back(x);
+                return w;
+              },
+              [](const std::vector<T>& c, int i) { return c[i]; });
+      }
     container<PlanarVector<T>>("PlanarVector", 2, [](const std::vector<T>& v) { return PlanarVector<T>(v[0], v[1]); }, [](const PlanarVector<T>& c, int i) { return c.x_y()[i]; });
     container<Vector<T>>("Vector", 3, [](const std::vector<T>& v) { return Vector<T>(v[0], v[1], v[2]); }, [](const Vector<T>& c, int i) { return c.x_y_z()[i]; });
     container<SymmetricDyad<T>>(
